@@ -50,6 +50,8 @@ def run(ctx):
     n = 0
     samples = []
     dual_checked = {}
+    bufs = [np.zeros(3) for _ in range(4)]
+    second_pass = []
     for st in cases:
         c, e = st["case"], st["expected"]
         key = (c["law"], tuple(c["E"]), tuple(c["F"]))
@@ -72,6 +74,7 @@ def run(ctx):
             if not close(got[name], exp[name]):
                 unit = "unit" if abs(np.linalg.norm(G0) - 1) < 1e-12 else "non-unit"
                 ctx.violation(f"{c['law']}:{name}:{unit}-reference", f"{c['law']}.{name} at {w}: {np.asarray(got[name]).tolist()}, exact {np.asarray(exp[name]).tolist()}", w)
+        second_pass.append((law, c, w, (G, G0, K, K0), exp))
         # Legendre duality for every law that provides a complementary energy / compliances
         if hasattr(law, "complementary_potential"):
             dual_checked[c["law"]] = dual_checked.get(c["law"], 0) + 1
@@ -92,12 +95,29 @@ def run(ctx):
                 ctx.violation(f"{c['law']}:dual:raises", f"{w}: {type(ex).__name__}: {ex}", w)
         if n in (7, 300):
             samples.append({"case": w, "expected_2W": e["W2"], "n": e["n"]})
+    # second pass: a caller that keeps its strain arrays and overwrites them in place (the element loops do): from call to call the same array
+    # objects carry other values, and nothing else is called in between
+    for law, c, w, vals, exp in second_pass:
+        for b, val in zip(bufs, vals):
+            b[:] = val
+        try:
+            got2 = {name: getattr(law, name)(*bufs) for name in exp}
+        except Exception as ex:
+            ctx.violation(f"{c['law']}:raises:reused-argument-arrays", f"{w}: {type(ex).__name__}: {ex}", w)
+            continue
+        if not all(np.array_equal(b, val) for b, val in zip(bufs, vals)):
+            ctx.violation(f"{c['law']}:arguments-modified", f"{c['law']} changed one of its argument arrays at {w}", w)
+        for name in exp:
+            if not close(got2[name], exp[name]):
+                ctx.violation(f"{c['law']}:{name}:reused-argument-arrays", f"{c['law']}.{name} at {w}, called with arrays that held other values in the previous call: "
+                                                                         f"{np.asarray(got2[name]).tolist()}, exact {np.asarray(exp[name]).tolist()}", w)
     ctx.log(f"[C12] {n} lattice cases replayed on {len(laws)} long-lived law objects; duality checked {dual_checked}")
     ctx.coverage = {"states": r.distinct, "transitions": max(r.generated, 1), "traces_validated_against_impl": n, "samples": samples, "exhaustive": True,
                     "law_objects": len(laws), "duality_checked": dual_checked,
                     "rule": "2 laws x 2 stiffness vectors x 7 strains with integer length x 4 reference strains (lengths 1, 2, 3, 5) x 2 curvatures x 2 reference curvatures"}
     ctx.assumptions = ["strains are restricted to vectors with integer Euclidean length so that Harsch2021's energy, force and tangent are rational",
-                       "float values compared with the spec's rationals at 1e-12 relative"]
+                       "float values compared with the spec's rationals at 1e-12 relative",
+                       "every case is evaluated twice: with fresh argument arrays, and in a second pass with four long-lived arrays that are overwritten in place from case to case"]
 
 
 def replay(ctx, path):
